@@ -222,9 +222,10 @@ CLAIMED = {
         "Exhaustive within bounds: sliding_window_view alone and under 8 reducers for every window size, cumsum / cumprod "
         "(sequential and blelloch) and diff along every axis, over 1-D sources of 1..8 elements and two 2-D sources (int, float, "
         "bool), each replayed under every chunk grid of its source (128 grids for 8 elements: windows spanning many blocks, blocks "
-        "smaller than the window, 8-block scans).",
-        "map_overlap / overlap boundary kinds, gradient and moving-window helpers have no denotation in NdArray.tla and are not "
-        "decided by this check (partial coverage of the property, stated in DESIGN.md §9).",
+        "smaller than the window, 8-block scans); map_overlap with a local stencil of radius 1-2 (NdArray.Stencil) under the five "
+        "boundary kinds along every axis under every chunk grid (blocks smaller than the depth included).",
+        "gradient, the moving-window helpers and multi-axis depths / trim=False of map_overlap have no denotation in NdArray.tla and "
+        "are not decided by this check (partial coverage of the property, stated in DESIGN.md §9).",
         "DESIGN.md §4 C19, §9",
     ),
     "C20": (
